@@ -240,7 +240,10 @@ def judge(ctx, R, A, s_true, site, extra_tags=()):
     for Rk in range(1, N + 1):
         st = f"{site}:R"
         try:
-            Ut, stt, Vt = Dq.classical_qsvd(A, Rk)
+            # the truncation rank in the integer types a caller may hold it in (Python int, numpy signed / unsigned integers)
+            Rform = [int, np.int64, int, np.int32, np.intp, int, np.uint8][(Rk + m + 2 * n) % 7]
+            ctx.hit("callform:R_as_" + Rform.__name__)
+            Ut, stt, Vt = Dq.classical_qsvd(A, Rform(Rk))
         except Exception as e:
             ctx.check("unexpected_exception", False, site=st, tags=tags, detail={"exception": repr(e), "R": Rk})
             continue
